@@ -488,6 +488,50 @@ pub fn c09_forced_strategy() -> BoxedStrategy<ConcCase> {
                 preload: 0,
             }
         });
+    // Gap layout: key order of KEYS is [2, 4, 0, 1, 3, 5]; the lowest `lo` and the highest `hi` keys
+    // are flushed twice as two disjoint files each (the second pair lands one level above the
+    // first), everything is compacted, and meanwhile a delayed second client fills the memtable
+    // with the keys in the gap only.
+    let gap = (
+        (select(vec![512usize, 700]), select(vec![400u64, 1024 * 1024]), select(vec![128usize, 4096]), any::<bool>())
+            .prop_map(|(memtable, file, block, reuse)| Cfg { memtable, file, block, reuse }),
+        (1usize..3, 1usize..3, 1usize..3),
+        prop::collection::vec(150u16..300, 3..8),
+        0u32..3,
+        (5u32..30, 20u32..60),
+    )
+        .prop_map(|(cfg, (lo, hi, rounds), lens, nth, (delay, hold))| {
+            const ORDER: [u8; 6] = [2, 4, 0, 1, 3, 5];
+            let mut p0 = vec![];
+            for _ in 0..=rounds {
+                for k in &ORDER[..lo] {
+                    p0.push(COp::Put(*k, 20));
+                }
+                p0.push(COp::Flush);
+                for k in &ORDER[6 - hi..] {
+                    p0.push(COp::Put(*k, 20));
+                }
+                p0.push(COp::Flush);
+            }
+            p0.push(COp::CompactAll);
+            p0.push(COp::Scan);
+            let middle = &ORDER[lo..6 - hi];
+            let mut p1 = vec![COp::Get(0)];
+            for (i, l) in lens.into_iter().enumerate() {
+                p1.push(COp::Put(middle[i % middle.len()], l));
+            }
+            ConcCase {
+                cfg,
+                nkeys: 6,
+                programs: vec![p0, p1],
+                directives: vec![
+                    Directive { role: 1, point: "get.unlocked".into(), nth: 0, max_hold_ms: delay, linger_ms: 0, every: 0 },
+                    Directive { role: -1, point: "compaction.step".into(), nth, max_hold_ms: hold, linger_ms: 0, every: 0 },
+                ],
+                wal_fault: None,
+                preload: 0,
+            }
+        });
     // Close race: the background thread is held after it drained its task buffer until the clients
     // are done, and lingers a little, so that it resumes while the database is being closed with a
     // task that was scheduled in the meantime still unprocessed.
@@ -510,7 +554,7 @@ pub fn c09_forced_strategy() -> BoxedStrategy<ConcCase> {
             .collect();
         c
     });
-    prop_oneof![6 => random, 2 => structured, 2 => closing, 2 => pile].boxed()
+    prop_oneof![6 => random, 1 => structured, 1 => gap, 2 => closing, 2 => pile].boxed()
 }
 
 pub enum Outcome {
